@@ -1,19 +1,23 @@
 import Litep2pVerif.Proofs.Kad.Coordinator
+import Litep2pVerif.Proofs.Kad.CoordinatorOwned
+import Litep2pVerif.Proofs.Kad.CoordinatorQuorum
 import Litep2pVerif.Generated.Consts
 /-!
 # C16 — Every Kademlia operation started by the user ends with one terminal event
 
-Property theorems only (model: `Model/Kad/Coordinator.lean`, lemmas: `Proofs/Kad/Coordinator.lean`).
+Property theorems only (model: `Model/Kad/Coordinator.lean`, lemmas: `Proofs/Kad/Coordinator.lean`,
+`Proofs/Kad/CoordinatorOwned.lean`, `Proofs/Kad/CoordinatorQuorum.lean`).
 The model is that of the repaired tree (four `fix:` commits: the unreachable peers of the
 PUT_VALUE/ADD_PROVIDER fan-out are failed after tracking starts; `on_connection_established` fails
 every kind of action whose substream cannot be opened and tracks the substreams it opens; an
 undecodable reply fails the request).
 
-`waiting_owned` — the ownership invariant itself (`WaitingOwned`, an executable predicate of the
-model) — is NOT proved as an unbounded theorem here: it is re-evaluated by the model driver on every
-state of every validated trace (`!waiting-not-owned`), and `terminal_once_at_quiescence_partial`
-takes it as its explicit hypothesis. Everything else (`terminal_once`, `terminal_accounted`,
-`put_quorum_sound`, the clamping rule) is proved for every schedule.
+Everything is proved for every schedule of user commands, engine actions, transport events, executor results and
+inbound substreams of remote peers (`Reachable`): `waiting_owned` (the ownership invariant, by induction over the transition system
+with the auxiliary invariants `ctx ⊆ connected` and uniqueness of the substream ids), `occupied_unreachable`,
+`terminal_once`, `terminal_accounted`, `terminal_once_at_quiescence`, `put_quorum_sound` and the clamping rule.
+The model driver still re-evaluates `WaitingOwned` on every validated trace (`!waiting-not-owned`): there it
+guards the tie between model and code, it is no longer a hypothesis of any theorem.
 -/
 namespace Litep2pVerif.Props.C16
 open Litep2pVerif Litep2pVerif.Kad.Coordinator
@@ -84,15 +88,52 @@ theorem quiescent_no_owner (s : State) (hq : Quiescent s) (x : Query) (p : Peer)
   unfold ownedB
   simp [hd, ho, hf]
 
-/-- **Exactly one terminal event at quiescence** (partial: the ownership invariant is a hypothesis).
-Full statement: `∀ s, Reachable s → Quiescent s → s.engine = [] ∧ ∀ q ∈ s.started, exactly one event`.
-Here: in a reachable state in which every waited-for peer is owned (`WaitingOwned`, checked on every
-validated trace), once the environment has discharged every obligation — no dial outstanding, no
-substream open unanswered, no executor future pending — and the engine has been drained, no query is
-live any more and every started operation has exactly one terminal event. -/
-theorem terminal_once_at_quiescence_partial (s : State) (h : Reachable s) (hOwned : WaitingOwned s)
-    (hq : Quiescent s) :
+/-- **The ownership invariant.** In every reachable state every peer a live query is waiting for is owned by
+at least one outstanding obligation of the environment: a pending dial action whose dial has not been
+concluded, a pending substream action whose open is tracked in `pending_substreams` and has not been answered,
+or an executor future (of the message kind that belongs to the query's phase). -/
+theorem waiting_owned (s : State) (h : Reachable s) : WaitingOwned s := waitingOwned_reachable h
+
+/-- Non-vacuity: a reachable state in which two queries wait for three peers, owned by a dial, a substream
+open and an executor future respectively. -/
+example :
+    let s := run {} [.cmd .findNode, .cmd (.getProviders 5), .engine (.send 0 3) [⟨false, .started, false⟩],
+      .established 4 [], .engine (.send 0 4) [⟨true, .err, false⟩], .engine (.send 1 4) [⟨true, .err, false⟩],
+      .subOpened 1]
+    Reachable s ∧ s.engine.map (fun x => (x.id, x.st.pending)) = [(0, [3, 4]), (1, [4])] ∧
+      s.dials.length = 1 ∧ s.actions.length = 1 ∧ s.futs.length = 1 :=
+  ⟨reachable_run .init _, by decide⟩
+
+/-- Non-vacuity (inbound substreams are transitions of the system too): peer 4 has a request being served while
+query 0 waits for the substream it opened to peer 4; the serving future fails, `disconnect_peer(4, None)` drops the
+peer's context and pending action, and the query is told. -/
+example :
+    let s := run {} [.cmd .findNode, .established 4 [], .inbound 4, .engine (.send 0 4) [⟨true, .err, false⟩],
+      .inboundFailed 4]
+    Reachable s ∧ s.engine.map (fun x => (x.id, x.st.pending)) = [(0, [])] ∧ s.ctx = [] ∧ s.actions = [] ∧
+      s.connected = [4] :=
+  ⟨reachable_run .init _, by decide⟩
+
+/-- **`Entry::Occupied` is dead code.** A peer without connection has no per-peer context in the coordinator,
+so the branch of `on_connection_established` that discards the pending dial actions ("connection already
+exists") cannot be taken: `ConnectionEstablished` is only reported for a peer without connection. -/
+theorem occupied_unreachable (s : State) (h : Reachable s) (p : Peer) (hp : p ∉ s.connected) : p ∉ s.ctx :=
+  Kad.Coordinator.occupied_unreachable h p hp
+
+/-- Non-vacuity: a reachable state with a context for the connected peer 4 and none for the peer 3 being dialed. -/
+example :
+    let s := run {} [.cmd .findNode, .engine (.send 0 3) [⟨false, .started, false⟩], .established 4 [],
+      .engine (.send 0 4) [⟨true, .err, false⟩]]
+    Reachable s ∧ s.connected = [4] ∧ s.ctx = [4] ∧ s.dialing = [3] :=
+  ⟨reachable_run .init _, by decide⟩
+
+/-- **Exactly one terminal event at quiescence.** In every reachable state, once the environment has discharged
+every obligation — no dial outstanding, no substream open unanswered, no executor future pending — and the
+engine has been drained, no query is live any more and every started operation has exactly one terminal
+event. -/
+theorem terminal_once_at_quiescence (s : State) (h : Reachable s) (hq : Quiescent s) :
     s.engine = [] ∧ ∀ q ∈ s.started, (s.events.filter (fun e => e.1 == q)).length = 1 := by
+  have hOwned := waiting_owned s h
   have hempty : s.engine = [] := by
     cases he : s.engine with
     | nil => rfl
@@ -123,21 +164,27 @@ new connection, it answers, the lookup succeeds). -/
 example :
     let s := run {} [.cmd .findNode, .engine (.send 0 3) [⟨false, .started, false⟩], .established 3 [true],
       .subOpened 0, .result ⟨3, 0, .reqResp⟩ .readOk, .engine (.lookupDone 0 true []) []]
-    waitingOwnedB s = true ∧ s.dialing = [] ∧ s.opening = [] ∧ s.futs = [] ∧ engineIdle s.engine = true ∧
-      s.started = [0] ∧ s.events = [(0, true)] := by
-  decide
+    Reachable s ∧ s.dialing = [] ∧ s.opening = [] ∧ s.futs = [] ∧ engineIdle s.engine = true ∧
+      s.started = [0] ∧ s.events = [(0, true)] :=
+  ⟨reachable_run .init _, by decide⟩
 
 /-- **A put / announcement reports success only with the (clamped) quorum of send successes.**
 Every success of the send phase recorded in any reachable state (a `SuccessRec` is logged exactly when
 a tracker emits its success event) counted at least `clampQuorum quorum nTargets` *distinct* peers,
 and every counted peer had an executor result of a success kind (`SendSuccess`, `AssumeSendSuccess` or
-`ReadSuccess`) for this query and peer, handled while the tracker was waiting for that peer.
-(The recorded future kind `k` is that of the PUT_VALUE/ADD_PROVIDER future unless a lookup-phase
-request to a fan-out target was still in flight when the lookup finished, which `engineStep` excludes
-only at the moment of the fan-out — the engine contract "found peers have answered", C15.) -/
+`ReadSuccess`) of a **PUT_VALUE / ADD_PROVIDER future** (`k ≠ reqResp`: futures are tagged with their
+message kind) for this query and peer, handled while the tracker was waiting for that peer.
+
+The query id is the same in the lookup phase and in the send phase, and the coordinator reports the
+`ReadSuccess` of a lookup-phase FIND_NODE/GET_VALUE request as a send success too; that such a result can
+never be counted by the tracker rests on two invariants proved for every schedule
+(`Proofs/Kad/CoordinatorQuorum.lean`): during the lookup phase the coordinator holds at most one record (pending
+dial action, pending substream action, executor future) per query and peer and none for a peer the lookup
+is not waiting for; hence — the engine only hands out fan-out targets the lookup is not waiting for — no
+request/response future of the query is in flight for a peer its tracker waits for. -/
 theorem put_quorum_sound (s : State) (h : Reachable s) (r : SuccessRec) (hr : r ∈ s.successLog) :
     clampQuorum r.quorum r.nTargets ≤ r.counted.length ∧ r.counted.Nodup ∧
-    ∀ p ∈ r.counted, ∃ k, (r.q, p, k) ∈ s.sendResults :=
+    ∀ p ∈ r.counted, ∃ k, k ≠ .reqResp ∧ (r.q, p, k) ∈ s.sendResults :=
   (QuorumInv.reachable h).log r hr
 
 /-- Non-vacuity: a put to two given peers with quorum N(2): both are dialed, sent the record (one answers,
@@ -150,6 +197,18 @@ example :
     s.events = [(0, true)] ∧ (s.successLog.map (·.counted)) = [[2, 1]] ∧
       s.sendResults = [(0, 2, .putEat), (0, 1, .putEat)] := by
   decide
+
+/-- Non-vacuity (the case the `k ≠ reqResp` clause is about): a `put_record` whose lookup still has a FIND_NODE
+request to peer 3 in flight when it ends with target 1; the late `ReadSuccess` of that request is reported as a
+send success of query 0 but is not counted, the success rests on the PUT_VALUE future of peer 1. -/
+example :
+    let s := run {} [.cmd (.putRecord 1 .one), .established 3 [], .engine (.send 0 3) [⟨true, .err, false⟩],
+      .subOpened 0, .engine (.lookupDone 0 true [1]) [⟨false, .started, false⟩],
+      .result ⟨3, 0, .reqResp⟩ .readOk, .established 1 [true], .subOpened 1,
+      .result ⟨1, 0, .putEat⟩ .readOk, .engine (.trackerDone 0) []]
+    Reachable s ∧ s.events = [(0, true)] ∧ (s.successLog.map (·.counted)) = [[1]] ∧
+      s.sendResults = [(0, 1, .putEat), (0, 3, .reqResp)] :=
+  ⟨reachable_run .init _, by decide⟩
 
 /-- **The clamping rule, as coded.** `One ⇒ 1`, `N(n) ⇒ min(n, max(len, 1))`, `All ⇒ max(len, 1)`
 with `len` the number of fan-out targets: the required number of successes never exceeds the requested
@@ -178,7 +237,9 @@ theorem settle_covers_timeouts :
 
 #print axioms terminal_once
 #print axioms terminal_accounted
-#print axioms terminal_once_at_quiescence_partial
+#print axioms waiting_owned
+#print axioms occupied_unreachable
+#print axioms terminal_once_at_quiescence
 #print axioms put_quorum_sound
 #print axioms quorum_clamp_rule
 #print axioms settle_covers_timeouts
